@@ -61,6 +61,14 @@ class _ParserLoops:
         self.sets = {}
         self.loops = []
         self.counter = 0
+        # STABLE loop ids: "<method>#<k>", k = ordinal of the `while` among ALL while statements of that method in source
+        # order (nested ones included).  Line numbers shift with every edit of parser.py; ids change only when a loop is
+        # added to / removed from / reordered within its own method.  pl_line is kept as a diagnostic field only.
+        self.loop_ids = {}
+        for name, fn in self.methods.items():
+            whs = sorted((n for n in ast.walk(fn) if isinstance(n, ast.While)), key=lambda n: (n.lineno, n.col_offset))
+            for k, wh in enumerate(whs):
+                self.loop_ids[id(wh)] = f"{name}#{k}"
 
     # ---- which methods (transitively) move the cursor -----------------------------------------
     def _touching(self):
@@ -246,7 +254,7 @@ class _ParserLoops:
             return [f"(PIf {c}\n      {self.block(st.body, idx_var, where, in_index_loop)}\n      {self.block(st.orelse, idx_var, where, in_index_loop)})"]
         if isinstance(st, ast.While):
             lid = self.loop(st, where)
-            return [f"(PLoop {lid})"]
+            return [f"(PLoop {coq_str(lid)})"]
         if isinstance(st, (ast.Break, ast.Raise)):
             pre = self._calls_of(st, w) if isinstance(st, ast.Raise) else []
             return pre + ["PExit"]
@@ -298,8 +306,9 @@ class _ParserLoops:
         need(not (idx_var is not None and has_cur), f"{fname}:{wh.lineno}: guard mixes an index bound and current()")
         guard = self.cond(wh.test, idx_var, f"{fname}:{wh.lineno}")
         body = self.block(wh.body, idx_var, fname, idx_var is not None)
-        lid = wh.lineno
-        self.loops.append((lid, fname, idx_var is not None, guard, body))
+        need(id(wh) in self.loop_ids and self.loop_ids[id(wh)].split("#")[0] == fname, f"{fname}:{wh.lineno}: loop without a stable id")
+        lid = self.loop_ids[id(wh)]
+        self.loops.append((wh.lineno, lid, fname, idx_var is not None, guard, body))
         return lid
 
     def run(self):
@@ -389,9 +398,11 @@ def _gen_parser_loops(src):
     out.append(f"Definition parser_check_deep_nesting_head : list (list N) := {coq_strlist(chk_src)}.\n")
     out.append(f"Definition parser_bracket_depth_writes : list (list N) := {coq_strlist(sorted(depth_writes))}.\n")
     items = []
-    for lid, fname, is_idx, guard, body in loops:
-        items.append(f"mkLoop {lid} {coq_str(fname)} {'true' if is_idx else 'false'}\n    {guard}\n    {body}")
-    out.append("(* every `while` of class Parser: line, method, index-loop?, guard, body skeleton *)\n")
+    need(len({lid for _, lid, *_ in loops}) == len(loops), "loop ids are not unique")
+    for line, lid, fname, is_idx, guard, body in loops:
+        items.append(f"(* {lid} *) mkLoop {coq_str(lid)} {line} {coq_str(fname)} {'true' if is_idx else 'false'}\n    {guard}\n    {body}")
+    out.append("(* every `while` of class Parser: stable id `method#ordinal-within-method`, line (DIAGNOSTIC ONLY: nothing may key\n"
+               "   on it), method, index-loop?, guard, body skeleton; nested loops are referenced by id *)\n")
     out.append(f"Definition parser_loops : list ploop :=\n  {coq_list(items)}.\n")
     return "".join(out)
 
@@ -731,7 +742,7 @@ def _mutations():
         ("M3 compile_grammar: try around parse removed", "mcp/compile_grammar.py", untry("doc = parse(content)"), "escapes_are_the_known_ones"),
         ("M4 eject: json.dumps no longer applied to the output of _ast_to_dict", "mcp/eject.py",
          rep("            data = _ast_to_dict(result.filtered_doc)\n            output = json.dumps(",
-             "            data = dict(result.filtered_doc.meta)\n            output = json.dumps("), "eject_json_dumps_argument"),
+             "            data = result.filtered_doc.meta\n            output = json.dumps("), "eject_json_dumps_argument"),
         ("M4b eject: a second json.dumps (of the raw META) outside any try", "mcp/eject.py",
          rep("            data = _ast_to_dict(result.filtered_doc)\n            output = json.dumps(data, indent=2, ensure_ascii=False)\n",
              "            data = _ast_to_dict(result.filtered_doc)\n            output = json.dumps(data, indent=2, ensure_ascii=False)\n"
@@ -751,6 +762,16 @@ def _mutations():
          rep("                    corrections.extend(self._map_parse_warnings_to_corrections(parse_warnings))\n                except Exception as e:",
              "                    corrections.extend(self._map_parse_warnings_to_corrections(parse_warnings))\n                except ValueError as e:"),
          "escapes_are_the_known_ones"),
+        ("H1 parser: HARMLESS edit -- 7 comment lines inserted above class Parser and 3 inside parse_document (every line shifts)",
+         "core/parser.py",
+         lambda txt: rep("class Parser:", "# shift\n" * 7 + "class Parser:")(
+             rep("            if self.current().type == TokenType.NEWLINE:\n                self.advance()\n                continue\n\n            # Parse section",
+                 "            # shift\n            # shift\n            # shift\n            if self.current().type == TokenType.NEWLINE:\n                self.advance()\n                continue\n\n            # Parse section")(txt)),
+         "all obligations still hold"),
+        ("H2 parser: a new (consuming) while inserted BEFORE the item loop of parse_list (ids of that method shift)", "core/parser.py",
+         rep("        self._check_deep_nesting(bracket_token)\n\n        items: list[Any] = []",
+             "        self._check_deep_nesting(bracket_token)\n\n        while self.current().type == TokenType.NEWLINE:\n            self.advance()\n\n        items: list[Any] = []"),
+         "parser_loops_ok_without_calls"),
         ("P1 parser: advance() dropped from the NEWLINE branch of parse_document", "core/parser.py",
          rep("            if self.current().type == TokenType.NEWLINE:\n                self.advance()\n                continue\n\n            # Parse section (assignment or block) with pending comments",
              "            if self.current().type == TokenType.NEWLINE:\n                continue\n\n            # Parse section (assignment or block) with pending comments"),
